@@ -51,6 +51,13 @@ def main():
         meta["demo_without_change"] = dict(passed=ok, failed=failed, ok=(ok > 0 and failed == 0 and "error" not in out.split("test result")[0][-300:]))
         meta["ran"].append("unchanged tree: " + cmd_demo + " -> %d passed, %d failed" % (ok, failed))
         rc, out = sh("git apply %s" % patch, cwd=scratch)
+        if rc != 0:
+            # the patch was made against an earlier HEAD of /repo (later fix: / hook commits touched the same file):
+            # three-way merge using the blob ids recorded in the patch
+            rc, out = sh("git apply --3way %s" % patch, cwd=scratch)
+            meta["applied_with_3way"] = (rc == 0)
+            if rc != 0:
+                raise SystemExit("patch does not apply, even with --3way:\n" + out[-800:])
         meta["patch_applies"] = rc == 0
         if rc != 0: meta["apply_error"] = out[-500:]
         rc, out = sh(cmd_demo, cwd=scratch)
